@@ -182,10 +182,55 @@ fn op_kind(op: &Op) -> u8 {
         Op::Clean(_) => 21,
         Op::DropCleanable(_) => 22,
         Op::SetConfig { .. } => 23,
+        Op::Rel(inner) => op_kind(inner),
     }
 }
 
+/// Resolves the relative selectors of `Op::Rel` against the current tables.
+fn absolutize(op: &Op) -> Op {
+    fn abs<T>(table: &[Option<T>], k: Sel) -> Sel {
+        let n = table.iter().filter(|e| e.is_some()).count();
+        if n == 0 {
+            return 0;
+        }
+        let idx = (n - 1).saturating_sub(k as usize);
+        // smallest selector s with (s * n) >> 8 == idx
+        (((idx << 8) + n - 1) / n).min(255) as Sel
+    }
+    w(|w| {
+        let h = |k: Sel| abs(&w.handles, k);
+        let wk = |k: Sel| abs(&w.weaks, k);
+        match op {
+            Op::Clone(a) => Op::Clone(h(*a)),
+            Op::Drop(a) => Op::Drop(h(*a)),
+            Op::SetSlot { h: a, s, t } => Op::SetSlot { h: h(*a), s: *s, t: h(*t) },
+            Op::MoveSlot { h: a, s, t } => Op::MoveSlot { h: h(*a), s: *s, t: h(*t) },
+            Op::ClearSlot { h: a, s } => Op::ClearSlot { h: h(*a), s: *s },
+            Op::TakeSlot { h: a, s } => Op::TakeSlot { h: h(*a), s: *s },
+            Op::MarkAlive(a) => Op::MarkAlive(h(*a)),
+            Op::Downgrade(a) => Op::Downgrade(h(*a)),
+            Op::WeakClone(a) => Op::WeakClone(wk(*a)),
+            Op::WeakDrop(a) => Op::WeakDrop(wk(*a)),
+            Op::Upgrade(a) => Op::Upgrade(wk(*a)),
+            Op::StoreWeak { h: a, ws, w: b } => Op::StoreWeak { h: h(*a), ws: *ws, w: wk(*b) },
+            Op::ClearWeak { h: a, ws } => Op::ClearWeak { h: h(*a), ws: *ws },
+            Op::TryUnwrap(a) => Op::TryUnwrap(h(*a)),
+            Op::DropLoose(a) => Op::DropLoose(abs(&w.looses, *a)),
+            Op::FinalizeAgain(a) => Op::FinalizeAgain(h(*a)),
+            Op::Register { h: a, act, cap, weak_owner } => Op::Register { h: h(*a), act: act.clone(), cap: cap.map(|c| h(c)), weak_owner: *weak_owner },
+            Op::Clean(a) => Op::Clean(abs(&w.cleanables, *a)),
+            Op::DropCleanable(a) => Op::DropCleanable(abs(&w.cleanables, *a)),
+            Op::Rel(inner) => (**inner).clone(),
+            other => other.clone(),
+        }
+    })
+}
+
 pub fn do_op(op: &Op) {
+    if let Op::Rel(inner) = op {
+        let resolved = absolutize(inner);
+        return do_op(&resolved);
+    }
     w(|w| w.cur_op_kind = op_kind(op));
     match op {
         Op::New(spec) => {
@@ -435,6 +480,7 @@ pub fn do_op(op: &Op) {
             #[cfg(not(feature = "cleaners"))]
             let _ = sel;
         }
+        Op::Rel(_) => unreachable!("resolved above"),
         Op::SetConfig { auto, thr, pct } => {
             set_owner("C15");
             #[cfg(feature = "auto-collect")]
